@@ -724,6 +724,56 @@ Proof.
   - subst offered. symmetry. apply firstn_len_app.
 Qed.
 
+(* ---- the write loop across connections, with failed writes ---- *)
+
+Lemma is_subseq_refl a : is_subseq a a = true.
+Proof. induction a as [|x a IH]; cbn; [reflexivity|]. rewrite N.eqb_refl. exact IH. Qed.
+
+Lemma is_subseq_both b :
+  (forall a x, is_subseq (x :: a) b = true -> is_subseq a b = true) /\
+  (forall a y, is_subseq a b = true -> is_subseq a (y :: b) = true).
+Proof.
+  induction b as [|z b [IHt IHc]].
+  - split; [intros a x H; discriminate|].
+    intros a y H. destruct a; [reflexivity | discriminate].
+  - assert (Ht : forall a x, is_subseq (x :: a) (z :: b) = true -> is_subseq a (z :: b) = true).
+    { intros a x H. cbn [is_subseq] in H. destruct (N.eqb x z).
+      - apply IHc. exact H.
+      - apply IHc. apply (IHt a x). exact H. }
+    split; [exact Ht|].
+    intros a y H. destruct a as [|x a]; [reflexivity|].
+    change (is_subseq (x :: a) (y :: z :: b)) with (if N.eqb x y then is_subseq a (z :: b) else is_subseq (x :: a) (z :: b)).
+    destruct (N.eqb x y); [apply (Ht a x); exact H | exact H].
+Qed.
+
+Lemma is_subseq_cons_r a y b : is_subseq a b = true -> is_subseq a (y :: b) = true.
+Proof. apply is_subseq_both. Qed.
+
+(* whatever the outcomes of the writes: what reached the wire is an order-preserving sub-list of what
+   was offered (nothing twice, nothing overtaking), the rest is still offered in its order, and with no
+   failed write nothing is missing *)
+Lemma writer_keeps_order rs : forall offered,
+  is_subseq (fst (writer_run offered rs)) offered = true /\
+  is_subseq (snd (writer_run offered rs)) offered = true /\
+  (Forall (fun r => r = WOk) rs -> fst (writer_run offered rs) ++ snd (writer_run offered rs) = offered).
+Proof.
+  induction rs as [|r rs IH]; intros offered.
+  - assert (E : writer_run offered [] = ([], offered)) by (destruct offered; reflexivity).
+    rewrite E. cbn [fst snd app]. repeat split; try apply is_subseq_refl. destruct offered; reflexivity.
+  - destruct offered as [|m rest]; [destruct r; cbn; repeat split; reflexivity|].
+    destruct (IH rest) as [H1 [H2 H3]].
+    destruct r; cbn [writer_run].
+    + destruct (writer_run rest rs) as [w rem] eqn:E. cbn [fst snd] in *.
+      repeat split.
+      * cbn. rewrite N.eqb_refl. exact H1.
+      * apply is_subseq_cons_r. exact H2.
+      * intros Hall. inversion Hall; subst. cbn. f_equal. apply H3. assumption.
+    + repeat split.
+      * apply is_subseq_cons_r. exact H1.
+      * apply is_subseq_cons_r. exact H2.
+      * intros Hall. inversion Hall as [|? ? Hr _]. discriminate.
+Qed.
+
 (* ---- pipelines of forwarders (the wrappers around the client) ---- *)
 
 Lemma exists_last_or_nil {A} (l : list A) : l = [] \/ exists l' x, l = l' ++ [x].
